@@ -518,6 +518,12 @@ class ShimNP:
 
     def hypot(self, a, b):
         if _has_sym(a) or _has_sym(b):
+            if isinstance(a, _np.ndarray) or isinstance(b, _np.ndarray):
+                aa, bb = _np.broadcast_arrays(_np.asarray(a, dtype=object), _np.asarray(b, dtype=object))
+                out = _np.empty(aa.shape, dtype=object)
+                for idx in _np.ndindex(aa.shape):
+                    out[idx] = (Sym.lift(aa[idx]) ** 2 + Sym.lift(bb[idx]) ** 2).sqrt()
+                return out
             return (Sym.lift(a) ** 2 + Sym.lift(b) ** 2).sqrt()
         return _np.hypot(a, b)
 
